@@ -9,6 +9,7 @@ import (
 	"os"
 	"reflect"
 	"sort"
+	"strings"
 
 	"github.com/tonkeeper/tongo/boc"
 	"github.com/tonkeeper/tongo/tlb"
@@ -35,8 +36,28 @@ func repo() string {
 
 // ------------------------------------------------------------------------------------------------ events
 
+// cls: the input class of a message event; a message decoded into a variable that held another one is a class of its own
+func cls(class string, d *decoded) string {
+	if d.reused {
+		return class + ":var-reused"
+	}
+	return class
+}
+
+// normEvent: a Message value holding a (after Hash(true)) is given the info, init and body of b; what Hash(true) says then
+func normEvent(class string, a, b *decoded) ev.M {
+	x, y := cloneMsg(a.m), cloneMsg(b.m)
+	_ = x.Hash(true)
+	x.Info, x.Init, x.Body = y.Info, y.Init, y.Body
+	return ev.M{"k": "Norm", "class": class, "cells": b.cells, "boc": b.boc, "hn": hx(x.Hash(true))}
+}
+
 func msgEvent(class string, d *decoded, cs *Case) ev.M {
+	class = cls(class, d)
 	e := ev.M{"k": "Msg", "class": class, "cells": d.cells, "h": d.h, "hc": d.hc, "hn": d.hn, "hnc": d.hnc, "boc": d.boc}
+	if d.reused {
+		e["prev"] = d.prev
+	}
 	if cs != nil {
 		e["case"] = cs.shape()
 	}
@@ -97,16 +118,30 @@ func pairEvent(bl builder, why string, ca, cb Case, sa, sb Seeds, dec *tlb.Decod
 		return nil, err
 	}
 	decl := declare(ma, mb)
-	da, err := roundTrip(ma, dec, r.Intn(2) == 0, nil)
+	da, err := roundTrip(ma, dec, r.Intn(2) == 0, nil, nil)
 	if err != nil {
 		return nil, withClass(err, class(ca))
 	}
-	db, err := roundTrip(mb, dec, r.Intn(2) == 0, nil)
+	db, err := roundTrip(mb, dec, r.Intn(2) == 0, nil, nil)
 	if err != nil {
 		return nil, withClass(err, class(cb))
 	}
-	return ev.M{"k": "Pair", "why": why, "exp": decl, "a": side(da), "b": side(db), "ca": ca.shape(), "cb": cb.shape(),
-		"adest": ca.Dest, "bdest": cb.Dest}, nil
+	e := ev.M{"k": "Pair", "why": why, "exp": decl, "a": side(da), "b": side(db), "ca": ca.shape(), "cb": cb.shape(),
+		"adest": ca.Dest, "bdest": cb.Dest}
+	if r.Intn(2) == 0 {
+		e["_norm"] = normEvent(class(cb), da, db)
+	}
+	return e, nil
+}
+
+// emitPair writes a pair event and the Norm event that may ride on it
+func emitPair(w *ev.Writer, e ev.M) {
+	n, ok := e["_norm"].(ev.M)
+	delete(e, "_norm")
+	w.Emit(e)
+	if ok {
+		w.Emit(n)
+	}
 }
 
 type classed struct {
@@ -219,6 +254,7 @@ func Drive(w *ev.Writer, o Opts) error {
 	}
 	bl := builder{wide: true}
 	dec := tlb.NewDecoder()
+	sl := &slots{}
 	// (a) messages of the three kinds, random shapes and values
 	for i := 0; i < nmsg; i++ {
 		if i%40 == 39 {
@@ -233,6 +269,10 @@ func Drive(w *ev.Writer, o Opts) error {
 		}
 		var d *decoded
 		var err error
+		var use *slots // every other message is decoded into the two variables that live across the loop
+		if r.Intn(2) == 0 {
+			use = sl
+		}
 		bl.bodyMax = 600
 		for try := 0; try < 12; try++ { // an inline body that does not fit next to its header is redrawn smaller
 			var m *tlb.Message
@@ -242,7 +282,7 @@ func Drive(w *ev.Writer, o Opts) error {
 				if m, e = bl.Build(cs, sd); e != nil {
 					return e
 				}
-				d, e = roundTrip(m, dec, r.Intn(2) == 0, exotic)
+				d, e = roundTrip(m, dec, r.Intn(2) == 0, exotic, use)
 				return e
 			})
 			if _, refusal := err.(*decodeErr); err == nil || refusal {
@@ -276,7 +316,7 @@ func Drive(w *ev.Writer, o Opts) error {
 			emitErr(w, "pair:"+why, err, nil)
 			continue
 		}
-		w.Emit(e)
+		emitPair(w, e)
 	}
 	// (c) the real blocks
 	files, err := blockFiles(o.Repo)
@@ -303,6 +343,19 @@ func Drive(w *ev.Writer, o Opts) error {
 		if err := safely(func() error { return driveBlock(w, name, data, stride, int(o.Seed), o.Shard, o.Shards, &n, &occ, nil) }); err != nil {
 			w.Emit(ev.M{"k": "Panic", "src": name, "panic": err.Error()})
 		}
+		// (d) records derived from the block's transactions: inside Merkle proofs; rebuilt to chosen numbers of cells
+		pstride, sizes := 2, []int(nil)
+		switch {
+		case name == "block-2" && !o.thorough():
+			pstride, sizes = 24, []int{255, 256, 257}
+		case name == "block-2":
+			sizes = []int{255, 256, 257, 65535, 65536, 65537}
+		case name == "block-4":
+			continue
+		}
+		if err := safely(func() error { return driveRecords(w, name, data, pstride, int(o.Seed), sizes, o.Shard, o.Shards, &n) }); err != nil {
+			w.Emit(ev.M{"k": "Panic", "src": name, "panic": err.Error()})
+		}
 	}
 	w.Emit(ev.M{"k": "End", "events": w.N, "tx_positions_seen": occ, "block_events_all_shards": n})
 	return nil
@@ -323,6 +376,7 @@ type vector struct {
 	// re-execution
 	Class string `json:"class"`
 	Boc   string `json:"boc"`
+	Prev  string `json:"prev"`
 	BocB  string `json:"bocb"`
 	Src   string `json:"src"`
 	Pos   string `json:"pos"`
@@ -330,7 +384,7 @@ type vector struct {
 }
 
 // fromTable turns a cell table of the generator into cells (bit by bit, reference by reference) and decodes the message.
-func fromTable(t []cells.C, dec *tlb.Decoder, viaBoc bool) (*decoded, error) {
+func fromTable(t []cells.C, dec *tlb.Decoder, viaBoc bool, sl *slots) (*decoded, error) {
 	for i := range t {
 		if t[i].R == nil {
 			t[i].R = []int{}
@@ -340,7 +394,7 @@ func fromTable(t []cells.C, dec *tlb.Decoder, viaBoc bool) (*decoded, error) {
 	if err != nil {
 		return nil, fmt.Errorf("layout: %w", err)
 	}
-	return decodeCell(roots[0], dec, viaBoc)
+	return decodeCell(roots[0], dec, viaBoc, sl)
 }
 
 // Replay hands the library the message cells TLC laid out for the enumerated cases: each becomes a Msg (+ Build) or Pair
@@ -355,6 +409,7 @@ func Replay(in string, w *ev.Writer, seed int64) error {
 	sc := bufio.NewScanner(f)
 	sc.Buffer(make([]byte, 1<<20), 1<<26)
 	dec := tlb.NewDecoder()
+	sl := &slots{}
 	n := 0
 	type known struct {
 		d    *decoded
@@ -377,14 +432,18 @@ func Replay(in string, w *ev.Writer, seed int64) error {
 		err := safely(func() error {
 			switch v.K {
 			case "case":
-				d, er := fromTable(v.Cells, dec, r.Intn(2) == 0)
+				var use *slots
+				if v.Vec%2 == 1 {
+					use = sl
+				}
+				d, er := fromTable(v.Cells, dec, r.Intn(2) == 0, use)
 				if er != nil {
 					return withClass(er, class(v.C))
 				}
 				es = append(es, msgEvent(class(v.C), d, &v.C), buildEvent(class(v.C), d))
 				return nil
 			case "msg":
-				d, er := fromTable(v.Cells, dec, r.Intn(2) == 0)
+				d, er := fromTable(v.Cells, dec, r.Intn(2) == 0, nil)
 				msgs[v.MsgID] = &known{d, er, class(v.C), v.C.Dest}
 				if er != nil {
 					if _, refusal := er.(*decodeErr); refusal && !v.Emit {
@@ -409,17 +468,31 @@ func Replay(in string, w *ev.Writer, seed int64) error {
 				}
 				es = append(es, ev.M{"k": "Pair", "why": "gen", "exp": v.Exp, "a": side(a.d), "b": side(b.d), "i": v.I, "j": v.J,
 					"adest": a.dest, "bdest": b.dest})
+				if v.Vec%3 == 0 {
+					es = append(es, normEvent(b.cl, a.d, b.d))
+				}
 				return nil
 			case "boc":
 				bag, er := hex.DecodeString(v.Boc)
 				if er != nil {
 					return er
 				}
-				d, er := decodeBag(bag, nil, dec, true)
+				var use *slots
+				if v.Prev != "" { // the recorded message was decoded into variables that held this one
+					pb, er := hex.DecodeString(v.Prev)
+					if er != nil {
+						return er
+					}
+					use = &slots{}
+					if _, er = decodeBag(pb, nil, dec, true, use); er != nil {
+						return er
+					}
+				}
+				d, er := decodeBag(bag, nil, dec, true, use)
 				if er != nil {
 					return er
 				}
-				es = append(es, msgEvent(v.Class, d, nil), buildEvent(v.Class, d))
+				es = append(es, msgEvent(strings.TrimSuffix(v.Class, ":var-reused"), d, nil), buildEvent(v.Class, d))
 				return nil
 			case "pairboc":
 				ba, er := hex.DecodeString(v.Boc)
@@ -430,11 +503,11 @@ func Replay(in string, w *ev.Writer, seed int64) error {
 				if er != nil {
 					return er
 				}
-				da, er := decodeBag(ba, nil, dec, true)
+				da, er := decodeBag(ba, nil, dec, true, nil)
 				if er != nil {
 					return er
 				}
-				db, er := decodeBag(bb, nil, dec, true)
+				db, er := decodeBag(bb, nil, dec, true, nil)
 				if er != nil {
 					return er
 				}
